@@ -82,8 +82,9 @@ var hostPool = []string{"a.example", "b.example", "c.example"}
 // build signs a bundle with a sequence of signers covering disjoint host sets, the way sign-bundle does.
 func build(r *mon.Run, i int, ids map[string]*gen.Identity) *scenario {
 	g := r.Rand("scenario", i)
+	// (not i%2: with an even number of shards every process would only ever see one bundle version)
 	ver := version.VersionB2
-	if i%2 == 1 {
+	if g.Bool() {
 		ver = version.VersionB1
 	}
 	sc := &scenario{ver: ver, orig: map[string]*original{}}
